@@ -112,6 +112,19 @@ Theorem C15_closed_form_equals_posterior_mean :
 Proof. exact closed_form_equals_posterior_mean. Qed.
 Print Assumptions C15_closed_form_equals_posterior_mean.
 
+(* the hypotheses of the previous theorem are DECIDED by the model on every instance it runs (hyps_ok: shapes, checked
+   inverses of both covariances, symmetry of the noise precision, checked inverse of the posterior precision); the harness
+   evaluates hyps_ok on every closed-form case that returns a value, so on those cases x = y holds without assumptions *)
+Theorem C15_hypotheses_decided :
+  forall (fixed : bool) (m n : nat) (A : list (list Qc)) (b x0 : list Qc) (ce cx : covform) (x y : list Qc),
+  hyps_ok m n A b ce cx = true ->
+  cov_guard fixed ce cx ->
+  map_direct fixed m n A b x0 (Some ce) (Some cx) = Val x ->
+  post_mean_exact m n A b x0 ce cx = Some y ->
+  length y = n -> x = y.
+Proof. exact hyps_ok_sound. Qed.
+Print Assumptions C15_hypotheses_decided.
+
 (* symmetry of a precision in the sense used above is decidable by computation: P^T = P suffices *)
 Theorem C15_symmetric_by_transpose :
   forall (k : nat) (P : list (list Qc)), wf_mat k P -> qtranspose k P = P -> q_sym k P.
@@ -163,9 +176,19 @@ Print Assumptions C15_value_needs_cov.
 
 Theorem C15_scalar_mean_refused :
   forall (fixed : bool) (m n : nat) (A : list (list Qc)) (b x0 : list Qc) (ce cx : covform),
-  length x0 <> n -> map_direct fixed m n A b x0 (Some ce) (Some cx) = EValue.
+  length x0 <> n ->
+  map_direct fixed m n A b x0 (Some ce) (Some cx) = EValue \/ map_direct fixed m n A b x0 (Some ce) (Some cx) = EAttr.
 Proof. exact scalar_mean_refused. Qed.
 Print Assumptions C15_scalar_mean_refused.
+
+(* a scipy-sparse covariance with a single stored entry (np.size counts stored entries): `C.ravel()` does not exist --
+   MAP and the direct sampler raise AttributeError, no value is returned *)
+Theorem C15_sparse_single_refused :
+  forall (fixed : bool) (m n : nat) (A : list (list Qc)) (b x0 : list Qc) (ce cx : covform),
+  sparse_single ce = true \/ sparse_single cx = true ->
+  map_direct fixed m n A b x0 (Some ce) (Some cx) = EAttr /\ sample_direct fixed m n A b x0 (Some ce) (Some cx) = SErr EAttr.
+Proof. exact sparse_single_refused. Qed.
+Print Assumptions C15_sparse_single_refused.
 
 (* direct sampling x = mu + L z: the offset is the closed-form MAP (hence, by the first theorem, the posterior mode)
    and the covariance the harness checks L L^T against is a two-sided inverse of the posterior precision
@@ -263,6 +286,31 @@ Theorem C15_sampler_cascade :
   (r = SRegLinearRTO -> (p_prior P = DRegGaussian \/ p_prior P = DRegGMRF) /\ p_lik P = DGaussian /\ p_model P = MLinear).
 Proof. exact cascade_spec. Qed.
 Print Assumptions C15_sampler_cascade.
+
+(* hand-over to the chosen sampler: the requested number of draws and the burn-in (Nb, or Ns/5 when not given) reach the
+   sampler unchanged -- legacy classes through sample(Ns,Nb) / sample_adapt(Ns,Nb), experimental ones through
+   warmup(Nb); sample(Ns); get_samples().burnthin(Nb), i.e. the warm-up is removed exactly once; and a gradient probe
+   that raises only matters once the cascade is past its first four choices *)
+Theorem C15_handover_protocol :
+  forall (c : sampler_choice) (experimental : bool) (ns : nat) (nb : option nat) (h : handover),
+  handover_model c experimental ns nb = Some h ->
+  h_experimental_module h = experimental /\
+  h_calls h = (if experimental then [RWarmup (burnin ns nb); RSampleN ns; RGetSamples; RBurnthin (burnin ns nb)]
+               else match c with SNUTS | SpCN => [RSampleAdapt ns (burnin ns nb)] | _ => [RSample ns (burnin ns nb)] end).
+Proof. intros c e ns nb h H. destruct c; cbn in H; try discriminate; injection H as <-; cbn; destruct e; split; reflexivity. Qed.
+Print Assumptions C15_handover_protocol.
+
+Theorem C15_probe_raises :
+  forall (joint : bool) (P : pinfo) (s q : bool) (d : nat) (pr : bool),
+  sample_route_x joint P s q d pr = SProbeRaises <->
+  pr = true /\ (let r := sample_route joint P s q d in r <> SGibbs /\ r <> SMapCholesky /\ r <> SLinearRTO /\ r <> SUGLA).
+Proof.
+  intros joint P s q d pr. unfold sample_route_x. pose proof (cascade_inv joint P s q d) as I. cbv zeta in I.
+  destruct (sample_route joint P s q d), pr; cbv zeta; split; try discriminate; try tauto;
+    try (intros _; repeat split; discriminate); try (intros [_ (H1 & H2 & H3 & H4)]; congruence); try (intros [H _]; discriminate).
+  all: try (exfalso; exact I).
+Qed.
+Print Assumptions C15_probe_raises.
 
 (* _solve_max_point: L-BFGS-B exactly for a CMRF prior with a posterior gradient, else scipy's minimize; the start
    point is the given one or the ones vector; the gradient is handed over iff the density has one *)
